@@ -13,6 +13,7 @@ import pickle
 import sqlalchemy as sa
 from sqlalchemy import exc as sa_exc
 from sqlalchemy.orm import Session, defer, selectinload
+from sqlalchemy.sql import util as sql_util
 from sqlalchemy.sql import visitors
 
 from checks import stmt_common as sc
@@ -39,6 +40,8 @@ def root(kind):
         return sa.select(A)
     if kind == "query":
         return Session().query(A)
+    if kind == "compound":
+        return sa.union(sa.select(a.c.id, a.c.x), sa.select(a.c.id, a.c.y))
     if kind == "insert":
         return sa.insert(a)
     if kind == "update":
@@ -87,6 +90,16 @@ def apply(kind, st, m):
         return st.with_entities(ID) if kind == "query" else st.with_only_columns(ID)
     if m == "addcol":
         return st.add_columns(Y)
+    if m == "order2":
+        return st.order_by(X)
+    if m == "mvalues":
+        return st.values([{"x": 1, "y": 1}, {"x": 2, "y": 2}])
+    if m == "mvalues2":
+        return st.values([{"x": 3, "y": 3}])
+    if m == "dialectopt":
+        return st.with_dialect_options(mysql_limit=5)
+    if m == "dialectopt2":
+        return st.with_dialect_options(mysql_limit=7)
     if m == "values":
         return st.values(y=7)
     if m == "values2":
@@ -109,6 +122,9 @@ def do_copy(kind, st, how):
         return st._clone() if kind != "query" else st._generate()
     if how == "deepclone":
         return visitors.cloned_traverse(st, {}, {})
+    if how == "adapt":
+        # a ClauseAdapter for a selectable that does not occur in the statement: a deep clone in which nothing is replaced
+        return sql_util.ClauseAdapter(sc.world().dtabs[None].alias("unrelated")).traverse(st)
     if how == "pickle":
         if kind == "orm":
             # plain pickle does not support ORM-annotated constructs; the documented route is sqlalchemy.ext.serializer
@@ -123,9 +139,11 @@ def compile_(kind, st, dname):
     try:
         el = st.statement if kind == "query" else st
         c = el.compile(dialect=dialect(dname))
-        return str(c), dict(c.params)
+        # the columns the statement exports (what select(stmt.cte()) / a subquery of it would offer) belong to what it means
+        cols = [c_.key for c_ in el.exported_columns] if kind != "query" else []
+        return str(c), dict(c.params), cols
     except (sa_exc.CompileError, sa_exc.InvalidRequestError, sa_exc.ArgumentError) as e:
-        return "raise " + type(e).__name__, {}
+        return "raise " + type(e).__name__, {}, []
 
 
 def cache_key(kind, st):
@@ -135,6 +153,14 @@ def cache_key(kind, st):
     if ck is None:
         return None
     return ck.key, repr([bp.value for bp in ck.bindparams])
+
+
+def memoize(kind, st):
+    """Memo(n): read the memoized attributes a program may touch without compiling anything"""
+    el = st.statement if kind == "query" else st
+    el._generate_cache_key()
+    for name in ("exported_columns", "selected_columns", "_all_selected_columns", "dialect_options", "dialect_kwargs"):
+        getattr(el, name, None)
 
 
 def _names(kind, st):
@@ -226,21 +252,40 @@ class Driver:
         return None
 
     def reset(self, state):
-        self.nodes = [root(self.kind)]
-        self.descr = [()]
+        rd = tuple(state[0][2]) if not isinstance(state[0][2], str) else ()
+        st = root(self.kind)
+        for m in rd:
+            st = apply(self.kind, st, m)
+        self.nodes = [st]
+        self.descr = [rd]
         self.pickled = [False]
+        self.info = [dict(via="root", par=None)]
+        self.walk = set(rd)          # every method (and copy operation) used in this walk so far
         self.first = {}
+
+    def _tag(self, i, symptom):
+        """structured prefix of a mismatch: how the statement concerned came to be (used for known-finding signatures)"""
+        inf = self.info[i]
+        p = inf["par"]
+        j, deep = i, False          # is the statement, or an ancestor of it, a deep clone?
+        while j is not None:
+            deep = deep or self.info[j]["via"] in ("deepclone", "adapt")
+            j = self.info[j]["par"]
+        return "[symptom=%s via=%s method=%s parent_via=%s parent_memoized=%s from_deep_clone=%s walk=%s] " % (
+            symptom, inf["via"], inf.get("m", "-"), self.info[p]["via"] if p is not None else "-", inf.get("par_memo", False), deep,
+            ",".join(sorted(self.walk)))
 
     def _check_node(self, i, dname):
         got = compile_(self.kind, self.nodes[i], dname)
         self.compiles += 1
         exp = self.fresh(self.descr[i], dname)
         if got != exp:
-            return "node %d %s on %s compiles to %r, the same derivation built afresh compiles to %r" % (
+            sym = "sql" if got[:2] != exp[:2] else "exported_columns"
+            return self._tag(i, sym + " dialect=" + dname) + "node %d %s on %s compiles to %r, the same derivation built afresh compiles to %r" % (
                 i + 1, "/".join(self.descr[i]) or "(root)", dname, got, exp)
         f = self.first.setdefault((i, dname), got)
         if f != got:
-            return "node %d on %s compiles to %r, its first recording was %r" % (i + 1, dname, got, f)
+            return self._tag(i, "changed dialect=" + dname) + "node %d on %s compiles to %r, its first recording was %r" % (i + 1, dname, got, f)
         return None
 
     def step(self, frm, act, to):
@@ -249,15 +294,21 @@ class Driver:
         if a == "Derive" and act.get("r") == "InvalidRequestError":
             try:
                 apply(kind, self.nodes[act["n"] - 1], act["x"])
-                return "%s on a Query with LIMIT/OFFSET did not raise; spec: InvalidRequestError" % act["x"]
+                return "%s did not raise; spec: InvalidRequestError (documented refusal)" % act["x"]
             except sa_exc.InvalidRequestError:
                 pass
+            self.walk.add(act["x"])
+        elif a == "Memo":
+            memoize(kind, self.nodes[act["n"] - 1])
         elif a == "Derive":
             p = act["n"] - 1
+            pinf = dict(via="derive", par=p, m=act["x"], par_memo=bool(frm[p][3] or frm[p][4]))
+            self.walk.add(act["x"])
             try:
                 new = apply(kind, self.nodes[p], act["x"])
-            except sa_exc.InvalidRequestError as e:
-                return "%s raised InvalidRequestError (%s); spec: ok" % (act["x"], str(e)[:120])
+            except (sa_exc.SQLAlchemyError, AttributeError, TypeError, KeyError) as e:
+                self.info.append(pinf)
+                return self._tag(len(self.info) - 1, "exception exc=" + type(e).__name__) + "%s raised %s (%s); spec: ok" % (act["x"], type(e).__name__, str(e)[:120])
             if new is self.nodes[p]:
                 # allowed only for a call that changes nothing (set_label_style() with the style already set returns self): the
                 # derivation with and without the call must then mean the same on every dialect
@@ -267,14 +318,17 @@ class Driver:
             self.nodes.append(new)
             self.descr.append(self.descr[p] + (act["x"],))
             self.pickled.append(self.pickled[p])
+            self.info.append(pinf)
         elif a == "Copy":
             p = act["n"] - 1
+            self.walk.add(act["x"])
             new = do_copy(kind, self.nodes[p], act["x"])
             if new is self.nodes[p]:
                 return "%s returned the same object" % act["x"]
             self.nodes.append(new)
             self.descr.append(self.descr[p])
             self.pickled.append(self.pickled[p] or act["x"] == "pickle")
+            self.info.append(dict(via=act["x"], par=p, par_memo=bool(frm[p][3] or frm[p][4])))
         elif a == "Compile":
             i = act["n"] - 1
             st = self.nodes[i]
